@@ -218,6 +218,25 @@ class P_dep(PrefixMixin0, DependencyMapper):
 
 class P_diff(DifferentiationMapper):
     pass
+
+
+class NoCseCacheMixin:
+    """the non-memoizing counterpart of a CSE-caching mapper: computes every wrapper afresh
+    (so it cannot be fooled by state that lives on the class or the module)"""
+    def map_common_subexpression(self, expr, *args):
+        return self.map_common_subexpression_uncached(expr, *args)
+
+
+class P_eval_nc(NoCseCacheMixin, EvaluationMapper):
+    pass
+
+
+class P_dep_nc(NoCseCacheMixin, PrefixMixin0, DependencyMapper):
+    pass
+
+
+class P_diff_nc(NoCseCacheMixin, DifferentiationMapper):
+    pass
 ''')
     return "".join(out)
 
@@ -393,7 +412,7 @@ def generate(seed, tier):
                 base = self.term(depth + 1)
                 return ["n", "Power", [base, ["i", self.rng.choice([0, 1, 2, 3])]]]
             if cls in ("Call", "CallWithKwargs") and profile == "arith":
-                fn = ["n", "Variable", [["s", self.rng.choice(["f", "g", "h"])]]]
+                fn = ["n", "Variable", [["s", self.rng.choice(["f", "g", "h", "f", "g", "h", "nul"])]]]
                 n = self.rng.randint(1, 2)
                 return ["n", "Call", [fn, ["t", [self.term(depth + 1) for _ in range(n)]]]]
             return super().node(cls, depth)
@@ -482,6 +501,10 @@ def generate(seed, tier):
                            [[v, ["np", "int64", repr(val)]]] if fam == "entry_eval"
                            else [[v, nested]],
                            [[v, ["fr", val, 1]]] if fam == "entry_eval" else [[v, nested_f]]]
+            if fam == "entry_subst":
+                # keys may be expression objects; the plain mapper only ever consults them
+                # for variables, subscripts and lookups
+                cfg["alts"][r.randrange(4)].append([["r", r.choice(pool_names)], ["i", 77]])
             if fam == "entry_eval":
                 for a in cfg["alts"]:
                     for w in ["x", "y", "z", "xa"]:
@@ -728,14 +751,16 @@ def execute(scenario, open_sigs):
     def construct(cls, ins, st, fresh):
         fam, c = ins["family"], ins["cfg"]
         if fam.startswith("entry"):
-            alts = [[(k, B.build(v, fresh=True)) for k, v in alt] for alt in c.get("alts", [[]])]
+            alts = [[(B.build(k, fresh=True) if isinstance(k, list) else k,
+                      B.build(v, fresh=True)) for k, v in alt] for alt in c.get("alts", [[]])]
             return EntryPoint(fam, cls == "cached", alts or [[]])
         if fam in ("eval", "csemix_eval"):
             ctx = {k: B.build(v) for k, v in c.get("vars", {}).items()}
             sim = SimState()
             log = []
             fk = {n: FakeFunction(n, sim, log, co)
-                  for n, co in (("f", (3, 5, 7, 11)), ("g", (2, 9, 4, 6)), ("h", (8, 1, 3, 5)))}
+                  for n, co in (("f", (3, 5, 7, 11)), ("g", (2, 9, 4, 6)), ("h", (8, 1, 3, 5)),
+                                ("nul", None))}
             ctx.update(fk)
             ctx["abs"] = abs
             if not fresh:
@@ -762,11 +787,11 @@ def execute(scenario, open_sigs):
     def classes_for(ins):
         fam, bits = ins["family"], ins["opt"]
         if fam == "csemix_eval":
-            return M.P_eval, M.P_eval
+            return M.P_eval, M.P_eval_nc
         if fam == "csemix_dep":
-            return M.P_dep, M.P_dep
+            return M.P_dep, M.P_dep_nc
         if fam == "csemix_diff":
-            return M.P_diff, M.P_diff
+            return M.P_diff, M.P_diff_nc
         if fam.startswith("entry"):
             return "cached", "plain"
         if fam == "plainopt":
@@ -775,6 +800,10 @@ def execute(scenario, open_sigs):
             return memo, plain
         if fam == "count":
             plain = M.P_walkset
+        elif fam == "eval":
+            plain = M.P_eval_nc
+        elif fam == "dep":
+            plain = M.P_dep_nc
         else:
             plain = getattr(M, f"P_{fam}")
         if bits is None:
@@ -804,9 +833,10 @@ def execute(scenario, open_sigs):
                                       and ins["family"] != "plainopt")
         obs.watch(st.obj, st.label)
         if mode == "nv":
-            _, plain_cls = classes_for(ins)
+            memo_cls2, plain_cls = classes_for(ins)
+            csemix = ins["family"].startswith("csemix")
             st.model = construct(
-                model_cached_class(plain_cls, ins["family"].startswith("csemix")),
+                model_cached_class(memo_cls2 if csemix else plain_cls, csemix),
                 ins, None, fresh=True)
         insts[n] = st
         return st
